@@ -2,8 +2,7 @@
 //!
 //! Flavours: plain Base+Burnable (wrapper), AllowList / BlockList (the example contracts),
 //! Votes (wrapper over FungibleVotes), Vault shares (fungible-vault example over a Base asset).
-//! (The RWA flavour of the statement is explored by the C04 binary's world with the same
-//! conservation / event oracles.) All calls run under recording authorization: who may call is
+//! RWA (wrapper over the RWA library with every gate open; the gates are C04's subject). All calls run under recording authorization: who may call is
 //! C02's subject; this check is about amounts.
 
 use num_bigint::BigInt;
@@ -19,6 +18,8 @@ use vh::report::Tier;
 
 #[path = "../shared/tokens.rs"]
 mod tokens;
+#[path = "../shared/rwa_wrap.rs"]
+mod rwa_wrap;
 #[path = "/repo/examples/fungible-allowlist/src/contract.rs"]
 mod allowlist_example;
 #[path = "/repo/examples/fungible-blocklist/src/contract.rs"]
@@ -36,6 +37,9 @@ enum Flavour {
     BlockList,
     Votes,
     Vault(u32),
+    /// RWA wrapper token, every gate open (the gates themselves are C04's subject); `burn` is the
+    /// supervisory burn, `forced_transfer` is explored as a second kind of transfer
+    Rwa,
 }
 
 #[derive(Clone, Debug, PartialEq, Eq)]
@@ -51,6 +55,7 @@ enum Op {
     VMint { who: usize, recv: usize, a: i128 },
     VWithdraw { who: usize, recv: usize, a: i128 },
     VRedeem { who: usize, recv: usize, a: i128 },
+    Forced { from: usize, to: usize, a: i128 },
 }
 
 #[derive(Clone, Debug, PartialEq, Eq, Hash)]
@@ -111,7 +116,7 @@ impl Tok {
         let vault = matches!(self.flavour, Flavour::Vault(_));
         Some(match op {
             Op::Mint { to, a } => {
-                if !matches!(self.flavour, Flavour::Base | Flavour::Votes) {
+                if !matches!(self.flavour, Flavour::Base | Flavour::Votes | Flavour::Rwa) {
                     return None;
                 }
                 ("mint", (u(*to), *a).into_val(e))
@@ -125,8 +130,9 @@ impl Tok {
                 }
                 ("burn", (u(*from), *a).into_val(e))
             }
+            Op::Forced { from, to, a } => ("forced_transfer", (u(*from), u(*to), *a).into_val(e)),
             Op::BurnFrom { s, from, a } => {
-                if vault || self.flavour == Flavour::BlockList {
+                if vault || self.flavour == Flavour::BlockList || self.flavour == Flavour::Rwa {
                     return None;
                 }
                 ("burn_from", (u(*s), u(*from), *a).into_val(e))
@@ -231,6 +237,14 @@ impl World for Tok {
             Flavour::Votes => e.register(tokens::VotesTok, ()),
             Flavour::AllowList => e.register(allowlist_example::ExampleContract, (name, sym, u[0].clone(), manager.clone(), init)),
             Flavour::BlockList => e.register(blocklist_example::ExampleContract, (name, sym, u[0].clone(), manager.clone(), init)),
+            Flavour::Rwa => {
+                let comp = e.register(rwa_wrap::MockCompliance, ());
+                let ver = e.register(rwa_wrap::MockVerifier, ());
+                for k in 0..N {
+                    call_mocked(&e, &ver, "set_verified", (u[k].clone(), true).into_val(&e)).expect("verify");
+                }
+                e.register(rwa_wrap::RwaTok, (comp, ver))
+            }
             Flavour::Vault(off) => {
                 let a = e.register(tokens::BaseTok, ());
                 let v = e.register(vault_example::ExampleContract, (name, sym, a.clone(), off));
@@ -243,7 +257,7 @@ impl World for Tok {
         let genesis = self.fold_events(&inst, &mut ledger);
         let e = &inst.e;
         match self.flavour {
-            Flavour::Base | Flavour::Votes => {
+            Flavour::Base | Flavour::Votes | Flavour::Rwa => {
                 if seed == 1 {
                     call_mocked(e, &inst.c, "mint", (inst.u[0].clone(), init).into_val(e)).expect("seed mint");
                     self.fold_events(&inst, &mut ledger).expect("seed events");
@@ -293,7 +307,7 @@ impl World for Tok {
             out
         };
         let vault = matches!(self.flavour, Flavour::Vault(_));
-        if matches!(self.flavour, Flavour::Base | Flavour::Votes) {
+        if matches!(self.flavour, Flavour::Base | Flavour::Votes | Flavour::Rwa) {
             for to in 0..N {
                 for a in dedup(vec![-1, 0, 1, 2, room, room.saturating_add(1), i128::MAX]) {
                     v.push(Op::Mint { to, a });
@@ -330,7 +344,7 @@ impl World for Tok {
                         v.push(Op::TransferFrom { s, from, to, a });
                     }
                 }
-                if !vault && self.flavour != Flavour::BlockList {
+                if !vault && self.flavour != Flavour::BlockList && self.flavour != Flavour::Rwa {
                     for a in dedup(vec![-1, 0, 1, al, al.saturating_add(1)]) {
                         v.push(Op::BurnFrom { s, from, a });
                     }
@@ -341,6 +355,15 @@ impl World for Tok {
             for from in 0..N {
                 for a in dedup(vec![-1, 0, 1, o.bal[from], o.bal[from].saturating_add(1), i128::MAX]) {
                     v.push(Op::Burn { from, a });
+                }
+            }
+        }
+        if self.flavour == Flavour::Rwa {
+            for from in 0..N {
+                for to in 0..N {
+                    for a in dedup(vec![-1, 0, 1, o.bal[from], o.bal[from].saturating_add(1)]) {
+                        v.push(Op::Forced { from, to, a });
+                    }
                 }
             }
         }
@@ -373,6 +396,7 @@ impl World for Tok {
             Op::VMint { .. } => "vault.mint",
             Op::VWithdraw { .. } => "vault.withdraw",
             Op::VRedeem { .. } => "vault.redeem",
+            Op::Forced { .. } => "rwa.forced_transfer",
         }
         .to_string()
     }
@@ -406,7 +430,7 @@ impl World for Tok {
         let mut exp_supply = BigInt::from(0);
         let amount_of = |op: &Op| match op {
             Op::Mint { a, .. } | Op::Transfer { a, .. } | Op::Approve { a, .. } | Op::TransferFrom { a, .. } | Op::Burn { a, .. } | Op::BurnFrom { a, .. } => *a,
-            Op::VDeposit { a, .. } | Op::VMint { a, .. } | Op::VWithdraw { a, .. } | Op::VRedeem { a, .. } => *a,
+            Op::VDeposit { a, .. } | Op::VMint { a, .. } | Op::VWithdraw { a, .. } | Op::VRedeem { a, .. } | Op::Forced { a, .. } => *a,
         };
         ensure!(amount_of(op) >= 0, "negative-amount-accepted", "{:?} succeeded with a negative amount", op);
         let evs = self.fold(i, raw, &mut m.ledger)?;
@@ -417,7 +441,7 @@ impl World for Tok {
                 exp_supply += *a;
                 ensure!(evs == vec![("mint".to_string(), None, Some(*to), *a)], "events", "mint emitted {:?}", evs);
             }
-            Op::Transfer { from, to, a } | Op::TransferFrom { from, to, a, .. } => {
+            Op::Transfer { from, to, a } | Op::TransferFrom { from, to, a, .. } | Op::Forced { from, to, a } => {
                 expect[*from] -= *a;
                 expect[*to] += *a;
                 ensure!(evs == vec![("transfer".to_string(), Some(*from), Some(*to), *a)], "events", "{:?} emitted {:?}", op, evs);
@@ -489,13 +513,13 @@ fn main() {
         |tier: Tier, r: &mut Runner| {
             let th = tier == Tier::Thorough;
             let (d, wall) = (tier.pick(3, 4), tier.pick(25, 500));
-            for fl in [Flavour::Base, Flavour::AllowList, Flavour::BlockList, Flavour::Votes, Flavour::Vault(0), Flavour::Vault(3)] {
-                let dd = if matches!(fl, Flavour::Vault(_)) { d - 1 } else { d };
+            for fl in [Flavour::Base, Flavour::AllowList, Flavour::BlockList, Flavour::Votes, Flavour::Rwa, Flavour::Vault(0), Flavour::Vault(3)] {
+                let dd = if matches!(fl, Flavour::Vault(_) | Flavour::Rwa) { d - 1 } else { d };
                 r.world(&Tok { flavour: fl, thorough: th }, &Bounds::new(dd, wall));
             }
             if let Some(rep) = r.report() {
                 rep.require(
-                    &["mint", "transfer", "approve", "transfer_from", "burn", "burn_from", "vault.deposit", "vault.mint", "vault.withdraw", "vault.redeem"],
+                    &["mint", "transfer", "approve", "transfer_from", "burn", "burn_from", "vault.deposit", "vault.mint", "vault.withdraw", "vault.redeem", "rwa.forced_transfer"],
                     &["mint", "transfer", "approve", "transfer_from", "burn", "burn_from", "vault.deposit", "vault.withdraw", "vault.redeem"],
                 );
             }
